@@ -44,7 +44,7 @@ _c("parse_varbyte_as_int",
                ensures=[("value-of-the-7-bit-groups", "result[0] == " + val.replace("fp.pos", "old_pos")),
                         ("bytes-consumed", "result[1] == %d and fp.pos == old_pos + %d and self.bytes_read == old_read + %d" % (L, L, L))])
           for L, cont, val in _CASES],
-   modifies=["param:fp", "param:self"],
+   modifies=["param:fp", "param:self"], havoc={"fp.pos": "int", "self.bytes_read": "int"},
    battery="vlq_files")
 
 _c("parse_track_header",
@@ -56,5 +56,73 @@ _c("parse_track_header",
                                       "fp.data[old_pos + 6] * 256 + fp.data[old_pos + 7]"),
             ("eight-bytes-consumed", "fp.pos == old_pos + 8")],
    raises={"HeaderError": "fp.data[fp.pos:fp.pos + 4] != b'MTrk'"},
-   modifies=["param:fp", "param:self"],
+   modifies=["param:fp", "param:self"], havoc={"fp.pos": "int", "self.bytes_read": "int"},
    battery="track_header_files")
+
+_TDV = "(bytes[0] * 256 + bytes[1])"
+_c("parse_time_division",
+   params={"self": "MidiFileIn", "bytes": "bytes[2]"},
+   requires="0 <= bytes[0] and bytes[0] < 256 and 0 <= bytes[1] and bytes[1] < 256",
+   returns="dict[fps:False,ticks_per_beat:int]",
+   ensures=[("ticks-per-beat-is-the-15-bit-value", "result['ticks_per_beat'] == %s" % _TDV)],
+   raises={"TimeDivisionError": "bytes[0] >= 128"},
+   modifies=[], battery="two_bytes",
+   notes="frames-per-second time division (top bit set) is always rejected by this reader: its frame field "
+         "((value & 0x7F00) >> 2) is a multiple of 64 and never one of 24, 25, 29, 30 -- derived from the code, "
+         "outside what C17 states (mingus writes ticks-per-beat files)")
+
+_H = "fp.data[old_pos + %d]"
+_CHUNK = "(%s * 16777216 + %s * 65536 + %s * 256 + %s)" % tuple(_H % i for i in (4, 5, 6, 7))
+_FMT = "(%s * 256 + %s)" % (_H % 8, _H % 9)
+_c("parse_midi_file_header",
+   params={"self": "MidiFileIn", "fp": "file"},
+   requires=[("at-least-a-whole-header-in-the-file", "fp.pos + 14 <= len(fp.data)"),
+             ("bytes-are-bytes", "all([0 <= fp.data[fp.pos + i] and fp.data[fp.pos + i] < 256 for i in range(14)])"),
+             ("header-chunk-of-the-standard-length-or-too-short",
+              "%s <= 6" % _CHUNK.replace("old_pos", "fp.pos"))],
+   old={"old_pos": "fp.pos", "old_read": "self.bytes_read"},
+   cases=[dict(when="%s < 6" % _CHUNK, returns="False", ensures=[("too-short-a-header-is-no-header", "result == False")]),
+          dict(when=None, returns="(int,int,dict[fps:False,ticks_per_beat:int])",
+               ensures=[("format-number", "result[0] == %s" % _FMT),
+                        ("number-of-tracks", "result[1] == %s * 256 + %s" % (_H % 10, _H % 11)),
+                        ("ticks-per-beat", "result[2]['ticks_per_beat'] == %s * 256 + %s" % (_H % 12, _H % 13)),
+                        ("fourteen-bytes-consumed", "fp.pos == old_pos + 14 and self.bytes_read == old_read + 14")])],
+   raises={"OSError": "fp.data[fp.pos:fp.pos + 4] != b'MThd' or (%s >= 6 and (%s > 2 or %s >= 128))"
+                      % (_CHUNK.replace("old_pos", "fp.pos"), _FMT.replace("old_pos", "fp.pos"),
+                         (_H % 12).replace("old_pos", "fp.pos"))},
+   modifies=["param:fp", "param:self"], battery="file_header_files",
+   notes="a file that does not start with MThd, has an impossible format number (> 2) or a frames-per-second time "
+         "division is rejected with IOError (the bare except clauses turn the specific errors into IOError)")
+
+# one event at the file position.  The byte count returned must be exactly what was consumed: parse_track subtracts it
+# from the chunk size to find the end of the track.
+_E = "fp.data[old_pos]"
+_E0 = "fp.data[fp.pos]"       # case guards are read in the pre-state
+_c("parse_midi_event",
+   params={"self": "MidiFileIn", "fp": "file"},
+   requires=[("enough-bytes-for-any-event", "fp.pos + 6 <= len(fp.data)"),
+             ("bytes-are-bytes", "all([0 <= fp.data[fp.pos + i] and fp.data[fp.pos + i] < 256 for i in range(6)])"),
+             ("a-meta-events-length-is-a-quantity-of-1-to-4-bytes-and-its-data-is-in-the-file",
+              "fp.data[fp.pos] < 240 or (fp.data[fp.pos + 5] < 128 and "
+              "fp.pos + 2 + vlq_len_at(fp.data, fp.pos + 2) + vlq_val_at(fp.data, fp.pos + 2) <= len(fp.data))")],
+   old={"old_pos": "fp.pos"},
+   cases=[dict(when="%s >= 240" % _E0, returns="(dict[event:int,meta_event:int,data:bytes],int)",
+               ensures=[("meta-event", "result[0]['event'] == 15 and result[0]['meta_event'] == fp.data[old_pos + 1]"),
+                        ("data-is-the-bytes-after-the-length",
+                         "result[0]['data'] == fp.data[old_pos + 2 + vlq_len_at(fp.data, old_pos + 2):"
+                         "old_pos + 2 + vlq_len_at(fp.data, old_pos + 2) + vlq_val_at(fp.data, old_pos + 2)]"),
+                        ("reports-exactly-the-bytes-consumed",
+                         "result[1] == 2 + vlq_len_at(fp.data, old_pos + 2) + vlq_val_at(fp.data, old_pos + 2) and "
+                         "fp.pos == old_pos + result[1]")]),
+          dict(when="%s >= 192 and %s < 224" % (_E0, _E0), returns="(dict[event:int,channel:int,param1:int],int)",
+               ensures=[("one-parameter-event", "result[0]['event'] == %s // 16 and result[0]['channel'] == %s %% 16 and "
+                                                "result[0]['param1'] == fp.data[old_pos + 1]" % (_E, _E)),
+                        ("reports-exactly-the-bytes-consumed", "result[1] == 2 and fp.pos == old_pos + 2")]),
+          dict(when=None, returns="(dict[event:int,channel:int,param1:int,param2:int],int)",
+               ensures=[("two-parameter-event-note-on-with-velocity-0-read-as-note-off",
+                         "result[0]['event'] == (8 if fp.data[old_pos + 2] == 0 else %s // 16) and "
+                         "result[0]['channel'] == %s %% 16 and result[0]['param1'] == fp.data[old_pos + 1] and "
+                         "result[0]['param2'] == fp.data[old_pos + 2]" % (_E, _E)),
+                        ("reports-exactly-the-bytes-consumed", "result[1] == 3 and fp.pos == old_pos + 3")])],
+   raises={"FormatError": "fp.data[fp.pos] < 128"},
+   modifies=["param:fp", "param:self"], battery="event_files")
